@@ -141,6 +141,10 @@ class Program:
                 self._subclasses.setdefault(b, []).append(c.qual)
         for m in self.modules.values():
             self._fold_consts(m)
+        # extract-method normal form: unknown private helpers are analysed through (see mdsa/inline.py)
+        from . import inline
+
+        self.inline_log: List[str] = inline.apply(self) if not os.environ.get("MDSA_NO_INLINE") else []
 
     def _index_module(self, m: Module):
         def index_func(node, prefix, cls, parent):
